@@ -499,6 +499,40 @@ func checkC02(c *Ctx) {
 		}
 	}
 
+	// ---- C02.16 connecting transports open the tunnel from the station's side: the connection attempt is made for a
+	// registration only after that very delivery passed admission (AddRegistration) - never for "the tracked record",
+	// which may never have been validated
+	r.Rule("C02.16", "the connecting-transport attempt is reachable only through AddRegistration", 1)
+	{
+		n := 0
+		for _, f := range c.funcsOfPkgs("pkg/station/lib") {
+			for _, ci := range callsIn(f, shortIs("handleConnectingTpReg")) {
+				n++
+				in := ci.(ssa.Instruction)
+				isAdd := func(x ssa.Instruction) bool {
+					c2, ok := x.(ssa.CallInstruction)
+					return ok && calleeShort(c2.Common()) == "AddRegistration"
+				}
+				skip, w := reach(f, nil, isInstr(in), isAdd, nil)
+				argOK := len(ci.Common().Args) >= 2 && len(f.Params) > 0
+				if argOK {
+					// the registration handed over is this delivery's (a parameter of the function), not a looked-up one
+					_, isP := stripConv(ci.Common().Args[1]).(*ssa.Parameter)
+					argOK = isP
+				}
+				if skip || !argOK {
+					r.Bad("C02.16", fnName(f)+": handleConnectingTpReg without admission of this delivery", in.Pos(), fnName(f),
+						"the station starts a connecting-transport session (it dials the client and proxies to the covert) for a registration that did not pass admission in this call - a tracked record that was never validated, or whose covert was refused, gets a tunnel", r.blockPath(f, w)...)
+				} else {
+					r.OK("C02.16", fnName(f)+": handleConnectingTpReg only after AddRegistration, for the delivery itself", in.Pos(), "must-pass")
+				}
+			}
+		}
+		if n == 0 {
+			r.Unk("C02.16", "call sites of handleConnectingTpReg", token.NoPos, "", "none found")
+		}
+	}
+
 	// ---- C02.14 "unexpired for that same phantom": a match on one phantom extends the life of that phantom's record only
 	r.Rule("C02.14", "a matched connection marks only the record under the matched registration's own (phantom, identifier) key as used", 1)
 	checkMarkOwnRecord(c, "C02.14")
